@@ -46,7 +46,10 @@ TNext == LET T == Traces[tid] IN
          /\ LET a    == T.hist[l + 1]
                 step == T.steps[l + 2 - T.from]
                 r    == ApplyF(ms, a)
-                cls  == PropertyClauses(step) \cup DriftClauses(r, step)
+                \* NoSuchObject: the call names an object the model has but the library never produced
+                \* (the step that failed to produce it is judged in its own trace): drift, nothing else
+                cls  == IF step.exc = "other:NoSuchObject" THEN {Cl("M_Exc", TRUE, FALSE)}
+                        ELSE PropertyClauses(step) \cup DriftClauses(r, step)
             IN /\ l' = l + 1
                /\ tid' = tid
                /\ ms' = r.st
